@@ -418,6 +418,22 @@ def run_case(c):
             res.violation('acquisition_time-value:%s' % c['kind'], 'acquisition_time is %r, expected %r; time channel %r, keywords %r' % (
                 at, want, c.get('timech'), kw), c)
             return res
+    # samples derived from this one (event slices) report the duration of THEIR events, also after the parent's duration has been asked for
+    if exp['acquisition_time'] != 'ANY' and len(events) >= 3:
+        try:
+            for label, sl in (('d[1:]', slice(1, None)), ('d[:-1]', slice(None, -1)), ('d[1:2]', slice(1, 2))):
+                sub = d[sl]
+                ev_sub = events[sl]
+                want_s = metaref(kw, names, pne, ranges, ev_sub)['acquisition_time']
+                got_s = sub.acquisition_time
+                ok_s = (got_s is None and want_s is None) or (got_s is not None and want_s is not None and want_s != 'ANY' and abs(float(got_s) - want_s) <= 1e-9 * max(1, abs(want_s)))
+                if not ok_s and want_s != 'ANY':
+                    res.violation('acquisition_time-derived:%s' % c['kind'], 'acquisition_time of %s is %r, its own events / the keywords give %r (the whole sample: %r); time channel %r, keywords %r' % (
+                        label, got_s, want_s, at, c.get('timech'), kw), c)
+                    return res
+        except Exception as e:
+            res.violation('acquisition_time-derived-raises:%s:%s' % (type(e).__name__, c['kind']), 'acquisition_time of an event slice raised %s: %s; keywords %r' % (type(e).__name__, e, kw), c)
+            return res
     # the answers do not depend on the order in which they are asked for: every attribute once more after the duration was computed, on
     # the same object, and on a second load whose duration is asked FIRST
     try:
